@@ -28,7 +28,14 @@ type LintHit struct {
 // (set by package props, which owns the reviewed table and knows the reference name of f).
 var ReviewedLint = func(kind string, f *Func) bool { return false }
 
-func AllLints(f *Func) []LintHit {
+func AllLints(f *Func) (hits []LintHit) {
+	// a lint that cannot cope with a construct must not take the whole check down with it (and hide what the other
+	// rules have to say): it is reported as a hit of its own, which fails the check all the same
+	defer func() {
+		if r := recover(); r != nil {
+			hits = append(hits, LintHit{"crash", f.Name + "#lint-crash", f.Decl.Pos(), fmt.Sprintf("a deviance lint failed on this function (%v): the function is not decided", r)})
+		}
+	}()
 	all := allLints(f)
 	var out []LintHit
 	for _, h := range all {
@@ -324,8 +331,33 @@ func BareBreaks(f *Func) []BareBreak {
 			for _, e := range initRHS {
 				scan(e)
 			}
+			// a condition on the position alone (`if i >= 5 { break }` over a slice) is a cut-off, not a filter: once it
+			// holds it holds for every later element, so break and continue do the same
 			if usesLoopVar && !usesState {
-				out = append(out, BareBreak{is, rs})
+				indexOnly := false
+				if kid, ok := rs.Key.(*ast.Ident); ok {
+					if _, isMap := info.TypeOf(rs.X).Underlying().(*types.Map); !isMap {
+						ko := info.Defs[kid]
+						indexOnly = ko != nil
+						check := func(e ast.Node) {
+							ast.Inspect(e, func(m ast.Node) bool {
+								if id, ok := m.(*ast.Ident); ok {
+									if o := info.Uses[id]; o != nil && loopVars[o] && o != ko {
+										indexOnly = false
+									}
+								}
+								return true
+							})
+						}
+						check(is.Cond)
+						for _, e := range initRHS {
+							check(e)
+						}
+					}
+				}
+				if !indexOnly {
+					out = append(out, BareBreak{is, rs})
+				}
 			}
 		}
 		return true
